@@ -22,6 +22,7 @@ type variant struct {
 	Replace string
 	Expect  string // substring of the obligation key expected to become VIOLATION
 	Silent  bool   // behaviour-preserving variant: no new violation may appear
+	All     bool   // replace every match (default: exactly one match required)
 }
 
 var variants []variant
@@ -131,7 +132,7 @@ func runVariant(repo string, v variant, base map[string]Verdict) liveResult {
 		return res
 	}
 	locs := re.FindAllIndex(src, -1)
-	if len(locs) != 1 {
+	if (len(locs) != 1 && !v.All) || len(locs) == 0 {
 		res.Outcome = "skipped (anchor gone)"
 		return res
 	}
